@@ -170,6 +170,23 @@ func (w *worker) eval(a *refsmb.Assign, r *explore.Run) {
 		return
 	}
 	r.Observe(smbgen.Hash64(b)...)
+	// ---- buffer layout: the same field values held in consecutive sub-slices of ONE caller buffer (spare
+	// capacity of each running into the next) must encode to the same bytes and stay untouched
+	if n, _ := smbgen.NumDev(a); n <= 1 {
+		if y, err := a.Build(); err == nil && smbgen.Rehome(y) >= 2 {
+			pristine, _ := a.Build()
+			b2, e2, p2, _ := smbgen.Marshal(y)
+			same := true
+			for _, f := range cmd.Fields {
+				if !cmd.FieldEqual(f, smbgen.Field(y, f), smbgen.Field(pristine, f)) {
+					same = false
+				}
+			}
+			w.check(w.key("marshal/independent-of-caller-buffer-layout"), !p2 && e2 == nil && bytes.Equal(b2, b) && same, func() string {
+				return fmt.Sprintf("%s{%s} with its byte fields held back to back in one caller buffer: Marshal() = %s (err %v), with independent buffers %s; field values unchanged afterwards: %v", cmd.Name, label, vf.HexS(b2), e2, vf.HexS(b), same)
+			})
+		}
+	}
 	if w.sample == nil || (a.Full && !w.sample["full"].(bool)) {
 		w.sample = map[string]any{"cmd": cmd.Name, "assignment": label, "library_bytes": vf.HexS(b), "reference_bytes": vf.HexS(ref.Bytes()), "full": a.Full}
 	}
